@@ -279,7 +279,7 @@ def cbmc(ctx, gb, name, unwind=None, function=None, timeout=600, extra=(), expec
         cmd += ['--trace']
     cmd += list(extra)
     rc, out, secs, to = run(cmd, timeout=timeout)
-    log = os.path.join(ctx.scratch, re.sub(r'[^A-Za-z0-9_.-]', '_', name) + '.cbmc.log')
+    log = os.path.join(ctx.scratch, re.sub(r'[^A-Za-z0-9_.-]', '_', name)[:120] + '_' + hashlib.sha256(name.encode()).hexdigest()[:8] + '.cbmc.log')
     with open(log, 'w') as f:
         f.write(' '.join(cmd) + '\n' + out)
     fails = RE_FAIL.findall(out)
@@ -348,7 +348,7 @@ def pool_map(fn, items, workers=None):
                 res[i] = e
             except Exception as e:  # a crashed worker is an inconclusive result, never a pass
                 import traceback
-                res[i] = Inconclusive('worker crashed: ' + traceback.format_exc()[-500:])
+                res[i] = Inconclusive('worker crashed: ' + ' | '.join(traceback.format_exc().strip().splitlines()[-3:])[-600:])
     return res
 
 
